@@ -1,6 +1,6 @@
 """C04 - names resolve through scopes, module, imports, context, builtins, UNDEFINED.
 
-Engine E1.  Five exhaustively enumerated families, each case executed on the
+Engine E1.  Six exhaustively enumerated families, each case executed on the
 real Template / TemplateLookup and compared with an independent oracle:
 
   res       binding-site subsets x read sites x read styles x strict_undefined:
@@ -17,6 +17,10 @@ real Template / TemplateLookup and compared with an independent oracle:
   reserved  reserved names x render entry points, x assignment forms x scopes x
             enable_loop configurations: NameConflictError demanded
   kwargs    context.kwargs at every kind of position x entry points
+  flagname  the variable spelled like each escape flag (x h u n trim entity unicode decode str) + a control
+            spelling x 22 read sites (nested-def defaults, keyword-only defaults, cache_key / cache_* attribute
+            expressions of defs, blocks and the page, expressions, code, control lines, call tags) x present /
+            absent x strict on/off; oracle = direct formula
 """
 
 import itertools
@@ -57,6 +61,7 @@ BOUNDS = {
                   "{after, before} + 23 statement binders x {after, before}; x container {body, top-level def} x name {present, absent} x strict on/off",
         "reserved": "4 names x 6 entry points x 3 enable_loop configurations; 4 names x 15 assignment forms x 3 scopes x 3 configurations",
         "kwargs": "10 positions x 4 entry points x 3 argument sets",
+        "flagname": "22 read sites x 10 spellings (9 escape-flag names + control) x {present, absent} x strict on/off, minus str-present",
     },
     "thorough": {
         "res": "all 256 subsets of the 8 binding sites x {plain, builtin} x 15 read sites x 3 styles x strict on/off x binding statement "
@@ -65,6 +70,7 @@ BOUNDS = {
         "reread": "as quick x container {body, top-level def, nested def, anonymous block, call body}",
         "reserved": "as quick + 5 scopes",
         "kwargs": "as quick",
+        "flagname": "22 read sites x 10 spellings (9 escape-flag names + control) x {present, absent} x strict on/off, minus str-present",
     },
 }
 
@@ -100,6 +106,7 @@ ASSUMPTIONS = [
     "(or enclosing callable) where it is raised; when several names of one callable are unresolvable any of them may be named",
     "DONT_CARE: passing loop to a render entry point of a template constructed with enable_loop=False whose <%page> tag re-enables the loop "
     "context (documentation: 'it's safe to pass the name loop to render' with enable_loop=False; mako's own tests do it)",
+    "DONT_CARE (not generated): a context variable called str (it shadows the name the default filter is written with: C02); "
     "DONT_CARE (not generated): a def called by its bare name from another def; a body-level loop target that is also assigned in a <% %> block "
     "while a def called by name reads it; value-style reads of an imported def (its text form holds addresses); filters that return non-strings",
     "the dict given to render(**d) cannot be reached by the library (keyword call), so 'caller's data unchanged' is checked on a caller-owned "
@@ -860,6 +867,132 @@ def check_reserved(c, st):
 
 
 # --------------------------------------------------------------------------
+# family flagname: the tested variable is spelled like one of the escape flags (x, h, u, n, trim, entity, unicode,
+# decode, str).  After '|' or in filter="..." these words are filter names; read anywhere else they are ordinary
+# variables.  Oracle: a direct formula (context value -> builtin -> UNDEFINED | strict NameError), no mako code.
+
+FLAG_NAMES = ["x", "h", "u", "n", "trim", "entity", "unicode", "decode", "str"]
+# site -> template; NAME = the variable, sh = the show helper, {v} in the expected text = show(resolved value)
+FLAG_SITES = {
+    "nested-def-default": ('<%def name="outer()"><%def name="inner(k=NAME)">[${sh(k)}]</%def>${inner()}</%def>${outer()}', "[{v}]"),
+    "nested-def-second-default": ('<%def name="outer()"><%def name="inner(j=1, k=NAME)">[${sh(k)}]</%def>${inner()}</%def>${outer()}', "[{v}]"),
+    "nested-def-default-expression": ('<%def name="outer()"><%def name="inner(k=[NAME, 1][0])">[${sh(k)}]</%def>${inner()}</%def>${outer()}', "[{v}]"),
+    "nested-def-keyword-only-default": ('<%def name="outer()"><%def name="inner(*, k=NAME)">[${sh(k)}]</%def>${inner()}</%def>${outer()}', "[{v}]"),
+    "nested-def-default-also-read-outside": (
+        '<%def name="outer()"><%def name="inner(k=NAME)">[${sh(k)}]</%def>${inner()}(${sh(NAME)})</%def>${outer()}', "[{v}]({v})"),
+    "doubly-nested-def-default": (
+        '<%def name="outer()"><%def name="mid()"><%def name="inner(k=NAME)">[${sh(k)}]</%def>${inner()}</%def>${mid()}</%def>${outer()}', "[{v}]"),
+    "def-in-anonymous-block-default": ('<%block><%def name="inner(k=NAME)">[${sh(k)}]</%def>${inner()}</%block>', "[{v}]"),
+    "def-in-anonymous-block-keyword-only-default": ('<%block><%def name="inner(*, k=NAME)">[${sh(k)}]</%def>${inner()}</%block>', "[{v}]"),
+    "def-in-named-block-default": ('<%block name="nb"><%def name="inner(k=NAME)">[${sh(k)}]</%def>${inner()}</%block>', "[{v}]"),
+    "toplevel-def-cache_key": ('<%def name="f()" cached="True" cache_key="${NAME}">[c]</%def>${f()}', "{{{v}}}[c]"),
+    "toplevel-def-cache-argument": ('<%def name="f()" cached="True" cache_tag="${NAME}">[c]</%def>${f()}', "{{{v}}}[c]"),
+    "nested-def-cache_key": (
+        '<%def name="outer()"><%def name="inner()" cached="True" cache_key="${NAME}">[c]</%def>${inner()}</%def>${outer()}', "{{{v}}}[c]"),
+    "nested-def-cache-argument": (
+        '<%def name="outer()"><%def name="inner()" cached="True" cache_tag="${NAME}">[c]</%def>${inner()}</%def>${outer()}', "{{{v}}}[c]"),
+    "anonymous-block-cache_key": ('<%block cached="True" cache_key="${NAME}">[c]</%block>', "{{{v}}}[c]"),
+    "named-block-cache_key": ('<%block name="nb" cached="True" cache_key="${NAME}">[c]</%block>', "{{{v}}}[c]"),
+    "page-cache_key": ('<%page cached="True" cache_key="${NAME}"/>[c]', "{{{v}}}[c]"),
+    "body-expression": ("[${sh(NAME)}]", "[{v}]"),
+    "toplevel-def-expression": ('<%def name="f()">[${sh(NAME)}]</%def>${f()}', "[{v}]"),
+    "code-block": ("<% zq = NAME %>[${sh(zq)}]", "[{v}]"),
+    "control-line": ("% for it in [NAME]:\n[${sh(it)}]\n% endfor\n", "[{v}]\n"),
+    "call-tag-attribute": ('<%self:show v="${NAME}"/><%def name="show(v)">[${sh(v)}]</%def>', "[{v}]"),
+    "call-tag-expr": ('<%call expr="show(NAME)"></%call><%def name="show(v)">[${sh(v)}]</%def>', "[{v}]"),
+}
+# Sites that fail on the unchanged tree for EVERY spelling (reported as separate findings, not enumerated until adjudicated):
+FLAG_SITES_PENDING = {
+    "toplevel-def-default": ('<%def name="f(k=NAME)">[${sh(k)}]</%def>${f()}', "[{v}]"),
+    "def-in-call-default": (
+        '<%call expr="w()"><%def name="inner(k=NAME)">[${sh(k)}]</%def>${inner()}</%call><%def name="w()">${caller.body()}</%def>', "[{v}]"),
+}
+
+
+def flag_cases(al):
+    for site in FLAG_SITES:
+        for name in FLAG_NAMES + [al.name]:
+            for present in (True, False):
+                if name == "str" and present:
+                    # a context variable called str shadows the name the default filter is written with in the generated
+                    # module: that is the filter pipeline's business (C02), DONT_CARE here
+                    continue
+                for strict in (False, True):
+                    yield {"site": site, "name": name, "present": present, "strict": strict}
+
+
+def _install_cache_plugin():
+    from mako import cache
+    from mako.cache import CacheImpl
+
+    if "c04dict" in cache._cache_plugins.impls:
+        return
+
+    class C04DictCache(CacheImpl):
+        """echoes the key (or the cache_tag argument) it is given in front of the created content; stores nothing"""
+
+        def __init__(self, c):
+            self.cache = c
+
+        def get_or_create(self, key, creation_function, **kw):
+            return "{" + env.show(kw.get("tag", key)) + "}" + creation_function()
+
+        def set(self, key, value, **kw):
+            pass
+
+        def get(self, key, **kw):
+            return None
+
+        def invalidate(self, key, **kw):
+            pass
+
+    cache._cache_plugins.impls["c04dict"] = lambda: C04DictCache
+
+
+def check_flag(al, c, st, sites=None):
+    import builtins
+    from mako.template import Template
+
+    _install_cache_plugin()
+    tpl, fmt = (sites or FLAG_SITES)[c["site"]]
+    name = c["name"]
+    src = tpl.replace("NAME", name)
+    ctx = {"sh": env.show}
+    if c["present"]:
+        ctx[name] = "CB" + al.sfx
+    # the oracle: context value, else builtin, else UNDEFINED / NameError naming the variable
+    if c["present"]:
+        exp = ("out", fmt.format(v="CB" + al.sfx))
+    elif name in builtins.__dict__:
+        exp = ("out", fmt.format(v=env.show(builtins.__dict__[name])))
+    elif c["strict"]:
+        exp = ("exc", "NameError", "'%s' is not defined" % name, [name])
+    else:
+        exp = ("out", fmt.format(v="U"))
+    st.evaluations += 1
+    st.transitions += 1
+    st.traces += 1
+    st.oracles["flagname"] += 1
+    try:
+        t = Template(src, strict_undefined=c["strict"], cache_impl="c04dict")
+        obs = ("out", t.render_unicode(**ctx))
+    except Exception as e:  # noqa
+        obs = ("exc", type(e).__name__, str(e))
+    ok = agrees(exp, obs, c["strict"])
+    st.outcomes[("flagname", "flag" if name in FLAG_NAMES else "control", exp[1] if exp[0] == "exc" else "out", "ok" if ok else obs[1][:20])] += 1
+    if not ok:
+        if obs[0] == "exc" and obs[1] == "NameError" and obs[2].startswith("name '"):
+            sym = "NameError(not-fetched)"
+        else:
+            sym = "exp=%s:obs=%s" % (exp[1] if exp[0] == "exc" else "out", obs[1] if obs[0] == "exc" else "out")
+        sig = "flagname:%s:%s:%s" % (c["site"], "escape-flag-spelling" if name in FLAG_NAMES else "ordinary-spelling", sym)
+        case = {"fam": "flagname", "c": c, "seed": al.seed, "template": src, "ctx": sorted(ctx)}
+        st.violation(sig, case, "a variable spelled like an escape flag resolves like any name", expected=list(exp), observed=list(obs))
+    if st.evaluations % 97 == 1:
+        st.sample({"fam": "flagname", "c": c, "template": src, "expected": list(exp)})
+
+
+# --------------------------------------------------------------------------
 # family kwargs
 
 KW_POS = ["body", "def", "selfdef", "nested", "anon", "named", "callbody", "nsdef", "include", "after-mutation"]
@@ -961,6 +1094,7 @@ def plan(tier, seed):
     jobs += [{"kind": "reread", "tier": tier, "seed": seed, "shard": i, "nshards": 4} for i in range(4)]
     jobs.append({"kind": "reserved", "tier": tier, "seed": seed})
     jobs.append({"kind": "kwargs", "tier": tier, "seed": seed})
+    jobs.append({"kind": "flagname", "tier": tier, "seed": seed})
     return jobs
 
 
@@ -1014,12 +1148,19 @@ def _run_job(job, st):
             st.states += 1
             st.nontrivial += 1
         st.extra["kwargs_cases"] = st.states
+    elif kind == "flagname":
+        for c in flag_cases(al):
+            check_flag(al, c, st)
+            st.states += 1
+            if c["name"] in FLAG_NAMES:
+                st.nontrivial += 1
+        st.extra["flagname_cases"] = st.states
     return st
 
 
 def post(tier, seed, st):
     walls = st.extra.pop("job_walls", [])
-    for k in ("res", "stmt", "reread", "reserved", "kwargs"):
+    for k in ("res", "stmt", "reread", "reserved", "kwargs", "flagname"):
         st.extra.pop("job_wall_max_s_" + k, None)
     st.extra["slowest_job_wall_s"] = max([w[2] for w in walls] or [0])
     st.extra["alphabet"] = {k: v for k, v in Alpha(seed).__dict__.items()}
@@ -1037,6 +1178,8 @@ def replay(case):
         check_reserved(case["c"], st)
     elif fam == "kwargs":
         check_kwargs(case["c"], st)
+    elif fam == "flagname":
+        check_flag(Alpha(case["seed"]), case["c"], st)
     else:
         return None, "unknown case"
     if st.violations:
